@@ -3,7 +3,7 @@ CONSTANTS
   MKind = "vec"
   MEty = "u64"
   Prefixes <- PrefNew
-  OpNames = {"push", "pop", "insert", "remove", "set", "swap", "get"}
+  OpNames = {"push", "pop", "insert", "remove", "set", "swap", "get", "iter"}
   MaxOps = 40
   NumSel <- NumSel_none
 SPECIFICATION SimSpec
